@@ -161,7 +161,7 @@ SchedNoGap ==
             \E k \in (i+1)..(j-1) : log[k].status = "ok" /\ log[k].s <= t /\ t < log[k].e
 
 \* refinement: the execution log is accepted by the property-level module CQProp
-PropEv(i) == [kind |-> log[i].kind, status |-> log[i].status, s |-> log[i].s, e |-> log[i].e,
+PropEv(i) == [kind |-> log[i].kind, status |-> log[i].status, s |-> log[i].s, e |-> log[i].e, xs |-> log[i].xs \/ log[i].xe,
               rows |-> IF log[i].status = "ok" THEN <<[t |-> log[i].label, n |-> 0]>> ELSE <<>>]
 RECURSIVE Fold(_, _)
 Fold(i, st) == IF i > Len(log) THEN TRUE
